@@ -777,10 +777,14 @@ def p1(cx):
     n = 0
     for spec in ("context::XContext", "context_cpu::ContextCpu"):
         c = m.cls(spec)
-        ms = m.methods(c)
-        cx.need(ms.get("__getstate__") is not None and ms.get("__setstate__") is not None, f"{spec}: state methods not found")
+        ms = dict(m.methods(c))
         I = Interp(m)
         C = I.global_lookup(*spec.split("::"))
+        # the state methods may be inherited (the interpreter follows the MRO and super()); they must exist somewhere
+        for nm_ in ("__getstate__", "__setstate__"):
+            got_, owner_ = I.find_in_class(C, nm_)
+            cx.need(owner_ is not None, f"{spec}: no {nm_} in the class or its bases")
+            ms.setdefault(nm_, got_.node if hasattr(got_, "node") else None)
         registry = {_Op("weak-buffer-1")}
         # the kernels live in the container class the context's __init__ creates (KernelDict)
         KD = I.global_lookup("context", "KernelDict")
@@ -799,6 +803,22 @@ def p1(cx):
         live.update(unpicklable)
         inst = _Obj("instance", dict(live), cls=C)
         out = {}
+        if spec.endswith("ContextCpu"):
+            # an OpenMP context on which NOTHING was built yet (the handles of the compiled module do not exist), and a
+            # serial one: pickling must work in every life stage of the context (seeded C20-g deleted the handles
+            # unconditionally for OpenMP contexts)
+            for omp_ in (0, 4, "auto"):
+                early = {k_: v_ for k_, v_ in live.items() if k_ not in unpicklable}
+                early["omp_num_threads"] = omp_
+                kern2 = I.call(KD, [], {})
+                early["_kernels"] = kern2
+                inst0 = _Obj("instance", dict(early), cls=C)
+                res0 = I.explore(lambda: I.call(I.getattr(inst0, "__getstate__"), [], {}), max_paths=8)
+                cx.recog(len(res0) == 1, ms["__getstate__"], f"{c.name}.__getstate__ before any build: {len(res0)} evaluation paths")
+                e0 = res0[0]["exc"]
+                cx.recog(e0 is None or e0.etype not in ("NameError",), ms["__getstate__"], f"{c.name}.__getstate__ before any build: {e0.etype if e0 else ''}: {e0.msg if e0 else ''}")
+                cx.check(e0 is None, None, construct=f"ContextCpu(omp_num_threads={omp_!r}) pickled before anything was built on it", detail="the state is produced in every life stage of the context",
+                         bad_detail=f"__getstate__ raises {e0.etype}: {e0.msg}: every object living in such a context is unpicklable until a kernel has been built" if e0 else "", anchor=f"{spec}.__getstate__", sub="P3")
 
         def thunk():
             out["state"] = I.call(I.getattr(inst, "__getstate__"), [], {})
